@@ -944,6 +944,10 @@ val reg_mask : z -> z
 
 val live_ok : z -> binstr list -> z list -> z -> arr -> bool
 
+val fwd_valid : z -> binstr list -> z -> arr -> bool
+
+val bwd_valid : binstr list -> z -> arr -> bool
+
 val bc_wf : z -> bool -> bprog -> bool
 
 val bc_wf_why : z -> bool -> bprog -> z
